@@ -441,17 +441,22 @@ class RefRule:
         return ok, vals
 
     def alternatives(self, path):
-        """every way this rule admits the path (direct, or through its non-strict slash handling)"""
-        alts = [path]
+        """every way this rule admits the path: [(kind, validated, values)] with kind
+        'direct' | 'noslash' (branch rule, strict_slashes off, path lacks the final slash) |
+        'trailing' (strict_slashes off, path has one extra final slash; a rule that ends in a path
+        converter swallows the slash into the converter instead)"""
+        alts = [("direct", path)]
         if not self.strict:
-            alts.append(path + "/")
-            if path.endswith("/"):
-                alts.append(path[:-1])
+            alts.append(("noslash", path + "/"))
+            if path.endswith("/") and not any(c[0] == "p" for _, c in self.convs):
+                alts.append(("trailing", path[:-1]))
         out = []
-        for p in alts:
+        for kind, p in alts:
+            if kind == "noslash" and not (self.toks and self.toks[-1] == "/"):
+                continue
             e = self.exact(p)
             if e is not None:
-                out.append(e)
+                out.append((kind, e[0], e[1]))
         return out
 
     def method_ok(self, method):
@@ -508,9 +513,10 @@ def quote_path(p):
     return quote(p, safe="!$&'()*+,/:;=@")
 
 
-def reference_check(cfg, rules, adapter, path, method, out, ws=None):
+def reference_check(cfg, rules, adapter, path, method, out, ws=None, lenient_noslash=False):
     """None when `out` (canonical outcome of MapAdapter.match) agrees with the reference reading of
-    the rules; else (description, shadowed_by_validation: bool)"""
+    the rules; else (description, shadowed_by_validation: bool).
+    lenient_noslash: do not count 'noslash' admissions towards 405 (used to classify F03b only)."""
     refs = [RefRule(i, r, cfg) for i, r in enumerate(rules) if not r["bo"]]
     domain = adapter["server"] if cfg["hm"] else (adapter["sub"] if adapter["sub"] is not None else adapter["server"])
     if any(rr.dom_ok(domain) is None for rr in refs):
@@ -521,41 +527,42 @@ def reference_check(cfg, rules, adapter, path, method, out, ws=None):
     path_part = ("/" + path.lstrip("/")) if path else ""
 
     def admitting(p, for_method=True, for_ws=True):
-        """[(rule, validated, values)] over all rules/alternatives"""
+        """[(rule, kind, validated, values)] over all rules/alternatives"""
         res = []
         for rr in refs:
             if for_method and not rr.method_ok(method):
                 continue
             if for_ws and rr.r["ws"] != websocket:
                 continue
-            for ok, vals in rr.alternatives(p):
-                res.append((rr, ok, vals))
+            for kind, ok, vals in rr.alternatives(p):
+                res.append((rr, kind, ok, vals))
         return res
 
     def slash_candidates(p):
         return [rr for rr in refs if rr.strict and rr.method_ok(method) and rr.r["ws"] == websocket and (e := rr.exact(p + "/")) is not None and e[0]]
 
     direct = admitting(path_part)
-    direct_valid = [x for x in direct if x[1]]
-    shadow = any(not ok for _, ok, _ in admitting(path_part, False, False)) or (cfg["merge"] and any(not ok for _, ok, _ in admitting(py_merge(path_part), False, False)))
+    direct_valid = [x for x in direct if x[2]]
+    shadow = any(not x[2] for x in admitting(path_part, True, True)) or (cfg["merge"] and any(not x[2] for x in admitting(py_merge(path_part), True, True)))
     kind = out.split(" ")[0]
     if kind == "M":
         _, idx, _, vals = out.split(" ")
         idx = int(idx)
         mine = [x for x in direct_valid if x[0].idx == idx]
         if not mine:
-            return (f"returned rule #{idx} does not admit the path for this method", shadow)
-        if not any(canon_values(v) == vals for _, _, v in mine):
-            return (f"returned values {vals} are not those of rule #{idx}: expected {[canon_values(v) for _, _, v in mine]}", shadow)
+            return (f"returned rule #{idx} does not admit the path for this method", False)
+        if not any(canon_values(x[3]) == vals for x in mine):
+            return (f"returned values {vals} are not those of rule #{idx}: expected {[canon_values(x[3]) for x in mine]}", False)
         me = mine[0][0]
         for rr in refs:
             if rr.idx == idx or not rr.method_ok(method) or rr.r["ws"] != websocket:
                 continue
             e = rr.exact(path_part)
-            if e is not None and e[0] and me.exact(path_part) is not None:
+            mex = me.exact(path_part)
+            if e is not None and e[0] and mex is not None and mex[0]:
                 why = more_specific(rr, me)
                 if why:
-                    return (f"priority: rule #{rr.idx} also admits the path and is more specific than the returned #{idx} ({why})", shadow)
+                    return (f"priority: rule #{rr.idx} also admits the path and is more specific than the returned #{idx} ({why})", False)
         return None
     if kind == "R":
         url = bytes.fromhex(out[2:]).decode()
@@ -568,7 +575,7 @@ def reference_check(cfg, rules, adapter, path, method, out, ws=None):
             targets.add(path_part + "/")
         if cfg["merge"]:
             p2 = py_merge(path_part)
-            if any(ok and rr.merge for rr, ok, _ in admitting(p2)):
+            if any(x[2] and x[0].merge for x in admitting(p2)):
                 targets.add(p2)
             if slash_candidates(p2):
                 targets.add(p2 + "/")
@@ -578,7 +585,12 @@ def reference_check(cfg, rules, adapter, path, method, out, ws=None):
                 return None
         if any(r["defaults"] or r["alias"] for r in rules):
             return None  # defaults / alias canonicalisation: C12's subject
-        return (f"redirect to {url!r} but the rules only justify {sorted(targets)}", shadow)
+        # a strict branch rule whose regex accepts path + '/' while its to_python rejects the value:
+        # SlashRequired is raised before any conversion (F03c)
+        pre = [rr for rr in refs if rr.strict and rr.method_ok(method) and rr.r["ws"] == websocket]
+        early = any((e := rr.exact(p + "/")) is not None and not e[0] for rr in pre for p in ([path_part] + ([py_merge(path_part)] if cfg["merge"] else [])))
+        early = early or (cfg["merge"] and any(not x[2] and x[0].merge for x in admitting(py_merge(path_part))))
+        return (f"redirect to {url!r} but the rules only justify {sorted(targets)}", "redirect-before-conversion" if early else False)
     # not matched / not redirected
     if direct_valid:
         rr = direct_valid[0][0]
@@ -586,29 +598,30 @@ def reference_check(cfg, rules, adapter, path, method, out, ws=None):
     sc = slash_candidates(path_part)
     if sc:
         return (f"outcome {kind} although rule #{sc[0].idx} admits the path with a trailing slash (redirect expected)", shadow)
-    any_method = [x for x in admitting(path_part, False, True) if x[1]]
+    any_method = [x for x in admitting(path_part, False, True) if x[2] and not (lenient_noslash and x[1] == "noslash")]
     if kind == "404":
         if any_method and any(x[0].methods for x in any_method):
             return (f"NotFound although rule #{any_method[0][0].idx} admits the path for other methods (405 expected)", shadow)
-        anything = [x for x in admitting(path_part, False, False) if x[1]]
-        if anything and not any_method:
+        anything = [x for x in admitting(path_part, False, False) if x[2]]
+        if anything and not any_method and not lenient_noslash:
             return (f"NotFound although rule #{anything[0][0].idx} admits the path (websocket mismatch expected)", shadow)
         return None
     if kind == "405":
         got = set(bytes.fromhex(x).decode() for x in out[4:].split(",")) if out[4:] != "[]" else set()
         must = set().union(*[x[0].methods or set() for x in any_method]) if any_method else set()
         may = set(must)
+        for x in admitting(path_part, False, True):
+            may |= x[0].methods or set()  # incl. rules admitting before validation (visited by the search)
         if cfg["merge"]:
             for x in admitting(py_merge(path_part), False, True):
                 may |= x[0].methods or set()
-        # rules that admit the path only before validation are visited too (F03 family)
-        if not must and not (got <= may and may):
+        if not may:
             return (f"MethodNotAllowed {sorted(got)} although no rule admits the path", shadow)
         if not (must <= got <= may):
             return (f"MethodNotAllowed lists {sorted(got)}, admitting rules have {sorted(must)}", shadow)
         return None
     if kind == "WSM":
-        anything = [x for x in admitting(path_part, True, False) if x[1]]
+        anything = [x for x in admitting(path_part, True, False) if x[2]]
         if not anything and not (cfg["merge"] and admitting(py_merge(path_part), True, False)):
             return ("WebsocketMismatch although no rule admits the path", shadow)
         return None
@@ -828,7 +841,8 @@ class MatchStream(Stream):
         elif choice < 0.75 and lit_idx:
             i = rng.choice(lit_idx)
             n = sum(1 for t in toks if t != "/" and t[0] == "V")
-            if (i == 0 or toks[i - 1] == "/") and (i + 1 == len(toks) or toks[i + 1] == "/"):
+            after_path = any(t != "/" and t[0] == "V" and t[1][0] == "p" for t in toks[:i])
+            if (i == 0 or toks[i - 1] == "/") and (i + 1 == len(toks) or toks[i + 1] == "/") and not after_path:
                 toks[i] = ["V", gen_conv(rng), f"m{n}"]
         elif choice < 0.9:
             if toks and toks[-1] == "/" and len(toks) > 1:
@@ -851,28 +865,42 @@ class MatchStream(Stream):
         return "|".join(canon_model_outcome(o) for o in out.split("|"))
 
     def check_all(self, case, real_out):
+        """[(description, family)]; family None | 'F03' | 'F03b'"""
         res = []
         if real_out.startswith("EXC"):
-            return [("match raised " + real_out, False)]
+            return [("match raised " + real_out, None)]
         for (p, meth), out in zip(case["probes"], real_out.split("|")):
             r = reference_check(case["cfg"], case["rules"], case["adapter"], p, meth, out)
-            if r is not None:
-                res.append((f"path {p!r} {meth}: {r[0]}", r[1]))
+            if r is None:
+                continue
+            fam = None
+            if reference_check(case["cfg"], case["rules"], case["adapter"], p, meth, out, lenient_noslash=True) is None:
+                # the only discrepancy: a branch rule with strict_slashes off admits the slash-less
+                # path, but its methods are not counted for MethodNotAllowed
+                fam = "F03b"
+            elif r[1] == "redirect-before-conversion":
+                # the slash / merged-slashes redirect is raised before conversion: its target is
+                # a path whose value the converter then rejects
+                fam = "F03c"
+            elif r[1] and out.split(" ")[0] in ("404", "405"):
+                # a rule whose regex accepts the path and whose to_python rejects it was selected:
+                # conversion happens after rule selection and the search does not backtrack
+                fam = "F03"
+            res.append((f"path {p!r} {meth}: {r[0]}", fam))
         return res
 
     def oracle(self, case, real_out):
         res = self.check_all(case, real_out)
         if not res:
             return None
-        # report a violation outside the known family first
-        res.sort(key=lambda x: x[1])
-        return res[0][0] + (" [a rule whose converter rejects what its regex accepts is involved]" if res[0][1] else "")
+        # report a violation outside the known families first
+        res.sort(key=lambda x: x[1] is not None)
+        return res[0][0] + (f" [{res[0][1]}]" if res[0][1] else "")
 
     def finding_key(self, case, what):
-        # F03: only when *every* discrepancy of the case involves a rule whose regex accepts the path
-        # and whose to_python rejects it (conversion after rule selection, no backtracking)
-        if what.endswith("[a rule whose converter rejects what its regex accepts is involved]"):
-            return "F03"
+        for k in ("F03", "F03b", "F03c"):
+            if what.endswith(f" [{k}]"):
+                return k
         return None
 
     def nontrivial(self, case, real_out):
